@@ -39,6 +39,35 @@ class Content:
         return 1
 
 
+class Chunk:
+    """Chunked content model: bytes [off, off+ln) of content cid (off, ln concrete)."""
+
+    def __init__(self, cid, off, ln):
+        self.cid, self.off, self.ln = cid, off, ln
+
+    def __len__(self):
+        return self.ln
+
+
+def chunk_size_of(env, cid, n):
+    """Chunked model: the size of a content that is read in pieces of n bytes is one of a few classes around the
+    multiples of n (a hole); returns the concrete size."""
+    eng = env.fs.eng
+    sz = eng.size_of(cid)
+    if not is_sym(sz):
+        return int(sz)
+    from .engine import tid
+    key = tid(cid.e)
+    got = env.chunk_sizes.get(key)
+    if got is not None:
+        return got
+    classes = [n + 1, n, n - 1, 2 * n, 2 * n + 1]
+    v = classes[eng.choose('szclass', len(classes))]
+    eng.constrain(sz == v)
+    env.chunk_sizes[key] = v
+    return v
+
+
 class JsonDoc(str):
     payload = None
 
@@ -81,8 +110,18 @@ class ModelFile:
             self.node = fs.open_read(p)
             self.reading = True
             self.done = False
+            self.off = 0
 
     def read(self, n=-1):
+        if self.env.chunked and n is not None and n >= 0 and 'b' in self.mode and not self.gz:
+            # chunked content model: a piece of at most n bytes
+            size = chunk_size_of(self.env, self.node.cid, n)
+            ln = min(n, size - self.off)
+            if ln <= 0:
+                return b''
+            c = Chunk(self.node.cid, self.off, ln)
+            self.off += ln
+            return c
         if self.done:
             return b'' if 'b' in self.mode else ''
         self.done = True
@@ -110,13 +149,29 @@ class ModelSha:
     def __init__(self, env):
         self.env = env
         self.cid = None
+        self.covered = None      # chunked model: number of leading bytes of cid digested so far
 
     def update(self, tok):
+        if isinstance(tok, (bytes, bytearray)) and len(tok) == 0:
+            return
+        if isinstance(tok, Chunk):
+            if self.cid is None and tok.off == 0:
+                self.cid, self.covered = tok.cid, tok.ln
+            elif self.covered is not None and tok.cid is self.cid and tok.off == self.covered:
+                self.covered += tok.ln
+            else:
+                raise Unmodelled('sha256.update: pieces that are not a prefix of one file in order')
+            return
         if not isinstance(tok, Content):
             raise Unmodelled('sha256.update of non-model content')
         self.cid = tok.cid
 
     def hexdigest(self):
+        if self.covered is not None:
+            eng = self.env.fs.eng
+            if is_sym(self.cid):
+                return eng.prefix_hash_of(self.cid, self.covered)
+            return 'hp%d:%d' % (self.covered, self.cid if eng.pos_of(self.cid) < self.covered else 0)
         if self.cid is None:
             return 'h-empty'
         if is_sym(self.cid):
@@ -129,6 +184,7 @@ _PERMS = {2: [(0, 1), (1, 0)], 3: [(0, 1, 2), (0, 2, 1), (1, 0, 2), (1, 2, 0), (
 
 class BaseEnv:
     perm_listdir = False     # os.listdir order is unspecified: return entries in a solver-chosen order
+    chunked = False          # chunked content model (read(n) returns pieces; digests of prefixes)
 
     def permute(self, names):
         """One permutation hole per path (shared by every listdir call of the path)."""
@@ -162,6 +218,7 @@ class ModelEnv(BaseEnv):
         super().__init__()
         self.fs = fs
         self.gzip_read_hook = None     # C15: outcome of reading the cache file
+        self.chunk_sizes = {}
         self._build()
 
     def _build(self):
@@ -316,6 +373,13 @@ class RealFS:
             idx = self.cid_index[cid] = len(self.cid_index)
         size = self.eng.size_of(cid)
         b = (b'c%d;' % idx).ljust(size, b'.')
+        if cid in getattr(self.eng, 'pos', {}):
+            # chunked content model: one distinguishing byte at POS(cid), filler elsewhere
+            pos = self.eng.pos[cid]
+            if not (0 <= pos < size and idx < 100):
+                from .common import HarnessError
+                raise HarnessError('POS(%r)=%r outside content of size %r' % (cid, pos, size))
+            b = b'.' * pos + bytes([0x80 + idx]) + b'.' * (size - pos - 1)
         if len(b) != size:
             from .common import HarnessError
             raise HarnessError('model size %d too small for a distinguishable content' % size)
